@@ -18,7 +18,7 @@ LEVEL = "exploration"
 META = {
     "engine": "differential",
     "technique": "runtime monitor: metamorphic comparison of the real server's outline / definition targets / diagnostics before and after compositions of meaning-preserving layout transformations (line endings, trailing blanks, comments, blank lines, letter case, & continuation splitting, ; joining) on samples and generated programs",
-    "text": "Each free-form sample source (inside its full sample workspace) and generated multi-file programs are indexed twice, as given and after 1-5 composed layout transformations applied at random statements by a token-level Fortran lexer that keeps a line/token map; outline entries, the definition target of every identifier occurrence and diagnostics must be identical modulo the map. Sampled (program, transformation) pairs. A third class joins arbitrary statements with ';' (nothing split): outline and diagnostics are compared with raw keys. Member lists offered after % are compared as multisets.",
+    "text": "Each free-form sample source (inside its full sample workspace), generated multi-file programs and hand-written extra subjects (operator/assignment interfaces and bindings, user-defined operators, shared DO label) are indexed twice, as given and after 1-5 composed layout transformations applied at random statements by a token-level Fortran lexer that keeps a line/token map; outline entries, the definition target of every identifier occurrence and diagnostics must be identical modulo the map. Sampled (program, transformation) pairs. A third class joins arbitrary statements with ';' (nothing split): outline and diagnostics are compared with raw keys. Member lists offered after % are compared as multisets.",
     "note": "trusted: the lexer/transformer (strings, comments, preprocessor lines, INCLUDE paths and already-continued statements are left untouched); case changes are not applied to preprocessed files; ; joining is not applied to lines with character literals; documentation comments are never moved",
 }
 RULE = ("(program, T) pairs: programs = free-form tab-free repository samples (indexed inside the sample workspace) and generated model workspaces; T = composition of 1-5 of "
